@@ -3,6 +3,7 @@
 A harness is a function `h(ctx)` that builds symbolic inputs, calls real tsdate code
 and states obligations with `ctx.prove(...)`.  `explore(h)` runs it once per path.
 """
+import os
 import time
 from fractions import Fraction
 
@@ -111,7 +112,11 @@ def _model_env(model):
 
 class Ctx:
     def __init__(self, qtimeout_ms=10000, max_paths=20000, max_decisions=5000,
-                 div0="numpy"):
+                 div0="numpy", shard=None):
+        # shard=(index, depth): explore only the paths whose first `depth` genuine forks take
+        # the sides given by the bits of `index` (the 2^depth shards partition the path space)
+        self.shard = shard
+        self.ptimeout_ms = max(qtimeout_ms * 6, 60000)   # obligations get a longer budget
         self.qtimeout_ms = qtimeout_ms
         self.max_paths = max_paths
         self.max_decisions = max_decisions
@@ -144,6 +149,7 @@ class Ctx:
         self.alts = []
         self.unknown_on_path = False
         self.fresh_counters = {}
+        self.nforks = 0
         self.path_tags = set()
         self.uf_memo = {}
         self.notes = []
@@ -160,25 +166,48 @@ class Ctx:
         self.notes.append(s)
 
     # ------------------------------------------------------------ solver
-    def _check(self, extra=()):
+    def _check(self, extra=(), timeout_ms=None):
         s = z3.Solver()
-        s.set("timeout", self.qtimeout_ms)
-        for f in self.base:
-            s.add(f)
-        for f in self.pc:
-            s.add(f)
-        for f in extra:
-            s.add(f)
+        s.set("timeout", timeout_ms or self.qtimeout_ms)
+        fs = list(self.base) + list(self.pc) + list(extra)
+        if fs:
+            s.add(*fs)
         t0 = time.time()
         r = s.check()
         dt = time.time() - t0
         self.stats.queries += 1
         self.stats.solver_s += dt
+        if dt > 5 and os.environ.get("SYMX_SLOW"):
+            with open(os.environ["SYMX_SLOW"], "a") as fh:
+                fh.write(f"--- {dt:.1f}s {r} decisions={len(self.trail)}\n{s.sexpr()}\n")
         if r == z3.sat:
             return "sat", s.model()
         if r == z3.unsat:
             return "unsat", None
         self.stats.unknown += 1
+        return "unknown", None
+
+    def _second_opinion(self, negated_claim):
+        """z3 said unknown on an obligation: retry with the nlsat tactic directly, then give up
+        (never reported as success)."""
+        try:
+            g = z3.Goal()
+            g.add(*(list(self.base) + list(self.pc) + [negated_claim]))
+            t = z3.TryFor(z3.Then("simplify", "purify-arith", "qfnra-nlsat"), self.ptimeout_ms)
+            s = t.solver()
+            s.add(*(list(self.base) + list(self.pc) + [negated_claim]))
+            t0 = time.time()
+            r = s.check()
+            self.stats.queries += 1
+            self.stats.solver_s += time.time() - t0
+            if r == z3.unsat:
+                self.stats.unknown -= 1
+                return "unsat", None
+            if r == z3.sat:
+                self.stats.unknown -= 1
+                return "sat", s.model()
+        except Exception:
+            pass
         return "unknown", None
 
     def _eval_model(self, z):
@@ -233,6 +262,7 @@ class Ctx:
             self.pos += 1
             self.trail.append((b, forced))
             if not forced:
+                self.nforks += 1
                 self.pc.append(z if b else z3.Not(z))
                 self.model_ok = False
             self._record_atom(atom, b)
@@ -273,13 +303,19 @@ class Ctx:
                 self.model, self.model_ok = m2, True
                 ev = False
         if can_t and can_f:
-            # follow the side the current model satisfies (keeps the model valid)
-            b = True if ev is None else ev
-            self.alts.append(self.trail + [(not b, False)])
+            if self.shard is not None and self.nforks < self.shard[1]:
+                b = bool((self.shard[0] >> self.nforks) & 1)
+                if ev is not b:
+                    self.model_ok = False
+            else:
+                # follow the side the current model satisfies (keeps the model valid)
+                b = True if ev is None else ev
+                self.alts.append(self.trail + [(not b, False)])
+                if ev is None:
+                    self.model_ok = False
+            self.nforks += 1
             self.trail.append((b, False))
             self.pc.append(z if b else nz)
-            if ev is None:
-                self.model_ok = False
         elif can_t or can_f:
             b = can_t
             self.trail.append((b, True))
@@ -323,7 +359,9 @@ class Ctx:
             st = "sat" if r == "sat" else "unknown"
             self.results.append(Obligation(name, st, _model_env(m), list(self.trail), detail))
             return st
-        r, m = self._check([z3.Not(claim)])
+        r, m = self._check([z3.Not(claim)], timeout_ms=self.ptimeout_ms)
+        if r == "unknown":
+            r, m = self._second_opinion(z3.Not(claim))
         if r == "unsat":
             self.stats.discharged += 1
             self.results.append(Obligation(name, "unsat"))
@@ -332,6 +370,39 @@ class Ctx:
         else:
             self.results.append(Obligation(name, "unknown", None, list(self.trail), detail))
         return r
+
+    def prove_all(self, items, detail=None):
+        """Obligations [(name, claim)] discharged with ONE query when they all hold; falls
+        back to one query each otherwise (so counterexamples stay per obligation)."""
+        from .dom import SymBool
+        zs, trivial = [], []
+        for name, claim in items:
+            c = claim.z if isinstance(claim, SymBool) else claim
+            if c is True or (not z3.is_expr(c) and bool(c)):
+                trivial.append(name)
+            else:
+                zs.append((name, claim, c))
+        for name in trivial:
+            self.stats.obligations += 1
+            self.stats.discharged += 1
+            self.results.append(Obligation(name, "unsat"))
+        if not zs:
+            return "unsat"
+        if all(z3.is_expr(c) for _, _, c in zs) and len(zs) > 1:
+            r, m = self._check([z3.Not(z3.And(*[c for _, _, c in zs]))],
+                               timeout_ms=self.ptimeout_ms)
+            if r == "unsat":
+                for name, _, _ in zs:
+                    self.stats.obligations += 1
+                    self.stats.discharged += 1
+                    self.results.append(Obligation(name, "unsat"))
+                return "unsat"
+        worst = "unsat"
+        for name, claim, _ in zs:
+            r = self.prove(name, claim, detail)
+            if r != "unsat":
+                worst = r if worst == "unsat" or r == "sat" else worst
+        return worst
 
     def fail(self, name, detail=None):
         """The path itself is a violation if it is feasible (e.g. an assertion fired)."""
